@@ -34,9 +34,10 @@ TRUSTED_COMMON = [
 
 class Task:
     def __init__(self, prop, name, fn, kind, tier, params, budget_s, functions, scope, canary, max_paths, note,
-                 shard=None, vc_timeout_s=30):
+                 shard=None, vc_timeout_s=30, exact_feas_ms=100):
         self.shard = shard
         self.vc_timeout_s = vc_timeout_s
+        self.exact_feas_ms = exact_feas_ms
         self.prop, self.name, self.fn, self.kind, self.tier = prop, name, fn, kind, tier
         self.params, self.budget_s, self.functions = params or {}, budget_s, functions or []
         self.scope, self.canary, self.max_paths, self.note = scope, canary, max_paths, note
@@ -50,7 +51,7 @@ REGISTRY: dict[str, list[Task]] = {}
 
 def contract(prop, name=None, kind="sym", tier="quick", params=None, budget_s=300, functions=None,
              scope="unbounded", canary=False, max_paths=None, note="", shards=1, shard_depth=6,
-             vc_timeout_s=30):
+             vc_timeout_s=30, exact_feas_ms=100):
     """Register a contract program (kind='sym'), a bounded enumeration (kind='enum') or a static analysis
     (kind='static').  `params` may be a list of dicts: one task per dict."""
     def deco(fn):
@@ -63,7 +64,7 @@ def contract(prop, name=None, kind="sym", tier="quick", params=None, budget_s=30
                 REGISTRY.setdefault(prop, []).append(
                     Task(prop, nm + (f"#{j}/{shards}" if shards > 1 else ""), fn, kind, tier, p, budget_s, functions,
                          scope, canary, max_paths, note, shard=(j, shards, shard_depth) if shards > 1 else None,
-                         vc_timeout_s=vc_timeout_s))
+                         vc_timeout_s=vc_timeout_s, exact_feas_ms=exact_feas_ms))
         return fn
     return deco
 
@@ -100,7 +101,7 @@ def _run_task(idx_prop):
         if task.kind == "sym":
             from . import symx
             ex = symx.Explorer(task.program(), name=task.name, budget_s=task.budget_s, max_paths=task.max_paths,
-                               shard=task.shard, vc_timeout_ms=task.vc_timeout_s * 1000)
+                               shard=task.shard, vc_timeout_ms=task.vc_timeout_s * 1000, exact_feas_ms=task.exact_feas_ms)
             rep = ex.run().to_dict()
             rep["kind"] = "sym"
         else:
